@@ -100,6 +100,9 @@ func c03Tables(w *World, r *Report) {
 
 func runC03(w *World, r *Report) {
 	hrDefaultMethods(w, r, "R4")
+	hrParamSegmentNonEmpty(w, r, "R8")
+	hrStatusArgIsInt64(w, r, "R4")
+	hrInternalLimitFilter(w, r, "R9")
 	hrFilterExtendDedupAgainstItself(w, r, "R9")
 	hrWildcardConstant(w, r, "R8")
 	// the spellings of "any URL" (C14.R4)
